@@ -138,7 +138,7 @@ func compareRPMVersionString(a, b string) int {
 	i, j := 0, 0
 
 	for i < len(a) || j < len(b) {
-		// Skip separators (. + - ~ ^)
+		// Skip separators (. + - ^ _)
 		for i < len(a) && isSeparator(rune(a[i])) {
 			i++
 		}
@@ -191,7 +191,7 @@ func compareRPMVersionString(a, b string) int {
 
 // isSeparator checks if a character is a separator in RPM versions
 func isSeparator(r rune) bool {
-	return r == '.' || r == '+' || r == '-' || r == '^'
+	return r == '.' || r == '+' || r == '-' || r == '^' || r == '_'
 }
 
 // compareRPMNonDigits compares non-digit segments with RPM-specific rules
